@@ -2,7 +2,7 @@
    literal "poll_fn = None" version even for the repaired code. *)
 From stdpp Require Import list numbers option.
 From RecordUpdate Require Import RecordUpdate.
-From Pipe Require Import Model Base Drop Scenarios.
+From Pipe Require Import Model Base Notify Terminal Drop Scenarios.
 
 (* C16 for a given set of facts: every reachable state in which the stream has been dropped and in which nothing can
    move as long as the input stays silent has released the Desync and the poll function (input stream + closure) *)
@@ -78,4 +78,48 @@ Proof.
   { vm_compute in Hr. injection Hr as <-. vm_compute. reflexivity. }
   injection Hv as Hd Ht Hp.
   destruct (H f100 _ _ _ s Hr Hd (terminal_silentb_sound _ _ _ Ht)) as [_ H2]. congruence.
+Qed.
+
+(* ---------- C12.2 / C12.4 as predicates on the facts; refutation for a poll_next that keeps a stale waker ---------- *)
+Definition C12_woken_statement (F : pfacts) : Prop :=
+  forall f inputs ext tr s,
+    run F f (init F inputs ext) tr = Some s ->
+    (s.(cst) = CPend \/ s.(cst) = CRun true) -> (s.(pending) <> [] \/ s.(closed) = true) ->
+    s.(notify) = None /\ (s.(cwoken) = true \/ cons_wake_inflight s = true).
+Definition C12_terminal_statement (F : pfacts) : Prop :=
+  forall f inputs ext tr s,
+    Forall (fun a => a <> ACSetDepth 0) tr ->
+    run F f (init F inputs ext) tr = Some s ->
+    terminal F f s -> dropped s = false ->
+    s.(delivered) = f <$> inputs /\ s.(got_end) = true /\ s.(cst) = CDone.
+
+Lemma C12_woken_holds_with_replace F : F.(f_poll_next_replaces_waker) = true -> C12_woken_statement F.
+Proof. intros HF f inputs ext tr s. exact (consumer_always_woken F f HF inputs ext tr s). Qed.
+Lemma C12_terminal_holds_with_replace F :
+  F.(f_poll_next_replaces_waker) = true -> 1 <= F.(f_default_depth) -> C12_terminal_statement F.
+Proof. intros HF Hd f inputs ext tr s Hok. exact (terminal_complete F f HF inputs ext tr s Hd Hok). Qed.
+
+Lemma stale_waker_state :
+  exists s, run facts_stale_waker f100 (init facts_stale_waker [1] true) stale_waker_trace = Some s /\
+            s.(cst) = CPend /\ s.(pending) = [101] /\ s.(closed) = true /\ s.(cwoken) = false /\
+            cons_wake_inflight s = false /\ s.(delivered) = [] /\ dropped s = false /\
+            terminal facts_stale_waker f100 s.
+Proof.
+  destruct (run facts_stale_waker f100 (init facts_stale_waker [1] true) stale_waker_trace) as [s|] eqn:Hr; [|by vm_compute in Hr].
+  exists s. split; [done|]. vm_compute in Hr. injection Hr as <-.
+  split_and!; try (vm_compute; reflexivity). apply terminalb_sound. vm_compute. reflexivity.
+Qed.
+
+Lemma C12_woken_refuted_stale_waker : ~ C12_woken_statement facts_stale_waker.
+Proof.
+  intros H. destruct stale_waker_state as (s & Hr & Hc & Hp & Hcl & Hw & Hi & _).
+  destruct (H f100 [1] true _ s Hr (or_introl Hc) (or_intror Hcl)) as [_ [?|?]]; congruence.
+Qed.
+
+Lemma C12_terminal_refuted_stale_waker : ~ C12_terminal_statement facts_stale_waker.
+Proof.
+  intros H. destruct stale_waker_state as (s & Hr & Hc & _ & _ & _ & _ & _ & Hd & Ht).
+  assert (Hok : Forall (fun a => a <> ACSetDepth 0) stale_waker_trace).
+  { unfold stale_waker_trace. cbn. repeat (constructor; [done|]). constructor. }
+  destruct (H f100 [1] true _ s Hok Hr Ht Hd) as (_ & _ & Hcd). congruence.
 Qed.
